@@ -121,14 +121,14 @@ def sharing_checks(run, rng):
 def main(tier):
     run = Run(PID, tier, LEVEL, RULE)
     rng = random.Random(f"C15-{run.seed}")
-    n_problems = 220 if tier == "quick" else 2000
+    n_problems = 220 if tier == "quick" else 900
     reqs = build_requests(rng, n_problems)
     evals = []
     for case in engine.curated_cases(random.Random(f"C15e-{run.seed}"), 1, 1, include_broadcast=False):
         case.capacity = None
         evals.append(case.describe())
     evals = evals[: (30 if tier == "quick" else 80)]
-    seeds = ["0", "1", "2", "3", "random"] if tier == "quick" else [str(k) for k in range(15)] + ["random"]
+    seeds = ["0", "1", "2", "3", "random"] if tier == "quick" else [str(k) for k in range(9)] + ["random"]
     orders = {"forward": list(range(len(reqs))), "reversed": list(reversed(range(len(reqs))))}
     sh = list(range(len(reqs)))
     random.Random(7).shuffle(sh)
